@@ -492,6 +492,19 @@ func genFont(rng *rand.Rand, o *fontOpts) *type1.Font {
 			}
 		}
 		o.f("encoding = subset of StandardEncoding")
+		if rng.IntN(2) == 0 {
+			// codes whose standard glyph IS in the font, given to a name that is not:
+			// the code selects .notdef, which the short form does not say
+			for i, n := range std {
+				if _, ok := f.Glyphs[n]; ok && n != ".notdef" && rng.IntN(3) == 0 {
+					f.Encoding[i] = []string{n + "small", "absent" + fmt.Sprint(i), n + ".alt", "Z" + n}[rng.IntN(4)]
+					if _, clash := f.Glyphs[f.Encoding[i]]; clash {
+						f.Encoding[i] = ".notdef"
+					}
+				}
+			}
+			o.f("standard codes of present glyphs given to names of absent glyphs")
+		}
 	case 3:
 		f.Encoding = make([]string, 256)
 		perm := rng.Perm(256)
